@@ -114,7 +114,8 @@ def structural(res, stats, case, verdict):
             a = by_id[anchors[0]]
             if a["name"] != "constant-combinator" or a.get("control_behavior"):
                 yield (nm, f"anchor of '{nm}' is not an empty constant combinator")
-            if nm not in a.get("player_description", "") or "anchor" not in a.get("player_description", ""):
+            awords = set(re.split(r"[^A-Za-z0-9_]+", a.get("player_description", "")))
+            if nm not in awords or "anchor" not in awords:
                 yield (nm, f"anchor of '{nm}' is labelled {a.get('player_description')!r}")
     for inp in verdict.get("inputs", []):
         ref = names.get(inp["name"]) or {}
@@ -149,6 +150,10 @@ def run(res, tier):
                     + (f'Bundle bb = {{ a, b }};\nSignal s = bb["{t1}"];\nBundle c = bb * 2;\n' if rg.random() < 0.5 else ""))
     # aliases and constants as outputs
     srcs += [f'Signal a = ("signal-A", {i});\nSignal b = a;\nSignal c = a + {i};\nSignal d = c;\nSignal k = {i} + 3;\n' for i in range(1, 4)]
+    # one value under several unconsumed names: one anchor per name, each labelled with its own name
+    srcs += [f'Signal a = ("signal-A", {i});\nSignal b = ("signal-B", 2);\nSignal c = a {op} b;\nSignal d = c;\nSignal e = c;\n'
+             + (f'Signal g = (a > {i}) : b;\nSignal h1 = g;\nSignal h2 = g;\nSignal h3 = g;\nSignal u = g + 1;\n' if i % 2 else "")
+             for i, op in ((1, "+"), (2, "*"), (3, "-"))]
     sources = [(s, {"optimize": True}) for s in srcs] + [(s, {"optimize": False}) for s in srcs]
     recs, infos, stats = run_semantic(res, sources, count=12 if tier == "quick" else 60, keep_lowered=True)
     for i in infos:
